@@ -562,3 +562,35 @@ def c16_6(ctx: Ctx) -> RuleResult:
         raise AnalysisError("no option dictionary flowing from the configuration to a back-end was found")
     res.floor = 1
     return res
+
+
+@rule(P)
+def c16_7(ctx: Ctx) -> RuleResult:
+    """An explicit `seed` option (0 included) reaches SciPy: the options dictionary handed to the backend is the
+    configured one, never filtered by the values of its entries (expected count zero; the pattern's positive example is
+    checked on every run)."""
+    import ast as _ast
+
+    from .common import value_filtered_mappings
+
+    res = RuleResult("C16.7", "DOM", "user options (e.g. an explicit seed, 0 included) are handed to the backend unfiltered")
+    c = ctx.repo.cls("ropt.plugins.optimizer.scipy.SciPyOptimizer")
+    f = c.methods.get("_parse_options")
+    if f is None:
+        raise AnalysisError("SciPyOptimizer._parse_options not found")
+
+    class _Probe:
+        node = _ast.parse("def g(o):\n    return {k: v for k, v in o.items() if v}\n").body[0]
+
+    if not value_filtered_mappings(_Probe):  # type: ignore[arg-type]
+        raise AnalysisError("C16.7 self-test: the value-filter pattern no longer matches its positive example")
+    funcs = [f] + [g for _c, gs, _k in ctx.cg.all_callees(f) for g in gs if g.cls is c]
+    for g in funcs:
+        bad = value_filtered_mappings(g)
+        ok = not bad
+        res.add(g, bad[0][0] if bad else g.node, f"`{g.name}` keeps every configured option whatever its value", ok,
+                "" if ok else f"entries are dropped `if {bad[0][1]}`: an explicit falsy option such as `seed: 0` (or `maxiter: 0`, `disp: False`) is removed and SciPy falls back to its default "
+                "(for differential_evolution: NumPy's global random state, so the run is no longer reproducible from the configuration)",
+                construct=f"{g.name}: options unfiltered")
+    res.floor = 1
+    return res
